@@ -20,7 +20,7 @@ from __future__ import division
 import math
 from . import errors
 
-from .errors import DecodingError
+from .errors import CompletionCodeError, DecodingError
 from .fields import SdrTypeLengthString
 from .utils import check_completion_code, ByteBuffer
 from .msgs import create_request_by_name
@@ -79,16 +79,23 @@ class Sdr(object):
         req.offset = offset
         req.bytes_to_read = length
 
-        rsp = get_sdr_chunk_helper(self.send_message, req,
-                                   self.reserve_sdr_repository)
+        try:
+            rsp = get_sdr_chunk_helper(self.send_message, req,
+                                       self.reserve_sdr_repository)
+        except CompletionCodeError as e:
+            e.reservation_id = req.reservation_id
+            raise
 
-        return (rsp.next_record_id, rsp.record_data)
+        return (rsp.next_record_id, rsp.record_data, req.reservation_id)
+
+    def _get_repository_sdr(self, record_id, reservation_id=None):
+        (next_id, record_data, reservation_id) = get_sdr_data_helper(
+                self.reserve_sdr_repository, self._get_sdr_chunk,
+                record_id, reservation_id, with_reservation=True)
+        return (SdrCommon.from_data(record_data, next_id), reservation_id)
 
     def get_repository_sdr(self, record_id, reservation_id=None):
-        (next_id, record_data) = get_sdr_data_helper(
-                self.reserve_sdr_repository, self._get_sdr_chunk,
-                record_id, reservation_id)
-        return SdrCommon.from_data(record_data, next_id)
+        return self._get_repository_sdr(record_id, reservation_id)[0]
 
     def sdr_repository_entries(self):
         """A generator that returns the SDR list.
@@ -100,7 +107,8 @@ class Sdr(object):
         record_id = 0
 
         while True:
-            s = self.get_repository_sdr(record_id, reservation_id)
+            (s, reservation_id) = self._get_repository_sdr(record_id,
+                                                           reservation_id)
             yield s
             if s.next_id == 0xffff:
                 break
